@@ -31,7 +31,6 @@ import (
 	"github.com/bluenviron/mediamtx/internal/externalcmd"
 	"github.com/bluenviron/mediamtx/internal/hooks"
 	"github.com/bluenviron/mediamtx/internal/logger"
-	"github.com/bluenviron/mediamtx/internal/servers/rtsp"
 	"github.com/bluenviron/mediamtx/internal/staticsources"
 	"github.com/bluenviron/mediamtx/internal/stream"
 	"github.com/bluenviron/mediamtx/internal/unit"
@@ -523,14 +522,23 @@ func vExec(op string) string {
 	if f[0] == "hookobj" {
 		return vHookObj(f[1])
 	}
-	if f[0] == "rtsp" {
-		// the real RTSP session handlers (shim tools/harness/c20rtsp, package internal/servers/rtsp)
-		out := rtsp.VerifRTSPSession(strings.Split(f[1], ","))
-		synctest.Wait()
-		return out
-	}
-	if f[0] == "rtspconn" {
-		out := rtsp.VerifRTSPConn(vB(f[1]))
+	if f[0] == "rtsp" || f[0] == "rtspconn" || f[0] == "hls" {
+		// the real RTSP / HLS session handlers, through optional shims (tools/harness/c20rtsp, c20hls)
+		out := "no-shim"
+		switch f[0] {
+		case "rtsp":
+			if fn, ok := verifutil.Funcs["c20_rtsp_session"].(func([]string) string); ok {
+				out = fn(strings.Split(f[1], ","))
+			}
+		case "rtspconn":
+			if fn, ok := verifutil.Funcs["c20_rtsp_conn"].(func(bool) string); ok {
+				out = fn(vB(f[1]))
+			}
+		case "hls":
+			if fn, ok := verifutil.Funcs["c20_hls_script"].(func(string) string); ok {
+				out = fn(f[1])
+			}
+		}
 		synctest.Wait()
 		return out
 	}
@@ -857,7 +865,36 @@ func vGenConf(r *verifutil.Rand, prop string) *vGenCfg {
 	return c
 }
 
+// C18: readers on an always-available path whose publisher is absent (never came / has left), then
+// the path is destroyed
+func vGenOfflineAA(r *verifutil.Rand) []string {
+	c := &vGenCfg{kind: "pub", aa: true, ovr: r.Bool(), max: []int{0, 0, 2, 5}[r.Intn(4)], startMs: 1000, closeMs: 1000}
+	if r.Chance(1, 4) {
+		c.kind = "static"
+	}
+	ops := []string{c.resetLine()}
+	rid := 0
+	if r.Chance(1, 2) {
+		if c.kind == "static" {
+			ops = append(ops, "srcready 1", "srcnotready")
+		} else {
+			ops = append(ops, "addpub 0 1", "rmpub 0")
+		}
+	}
+	for k := 1 + r.Intn(4); k > 0; k-- {
+		rid++
+		ops = append(ops, fmt.Sprintf("addrd %d %d", rid, r.Intn(4)))
+	}
+	if r.Chance(1, 3) {
+		ops = append(ops, fmt.Sprintf("rmrd %d", r.Intn(4)))
+	}
+	return append(ops, "close", "write 0")
+}
+
 func vGenHistory(r *verifutil.Rand, prop string, thorough bool) []string {
+	if prop == "C18" && r.Chance(1, 10) {
+		return vGenOfflineAA(r)
+	}
 	c := vGenConf(r, prop)
 	ops := []string{c.resetLine()}
 	n := 6 + r.Intn(30)
@@ -927,11 +964,28 @@ func vGenHistory(r *verifutil.Rand, prop string, thorough bool) []string {
 			ops = append(ops, fmt.Sprintf("write %d", r.Intn(nsub+1)))
 		case x < 94:
 			if prop == "C20" && r.Chance(2, 3) {
-				switch r.Intn(4) {
+				switch r.Intn(6) {
 				case 0:
 					ops = append(ops, "hookobj "+r.Pick("read", "connect"))
 				case 1:
 					ops = append(ops, "rtspconn "+vb(r.Bool()))
+				case 2, 3:
+					var evs []string
+					for k := 1 + r.Intn(7); k > 0; k-- {
+						switch r.Intn(8) {
+						case 0, 1, 2:
+							evs = append(evs, fmt.Sprintf("open%d", r.Intn(5)))
+						case 3, 4:
+							evs = append(evs, fmt.Sprintf("cdn%d", 5+r.Intn(3)))
+						case 5:
+							evs = append(evs, r.Pick("down", "up", "down,up"))
+						case 6:
+							evs = append(evs, fmt.Sprintf("kick%d", r.Intn(8)))
+						default:
+							evs = append(evs, "up")
+						}
+					}
+					ops = append(ops, "hls "+strings.Join(append(evs, "end"), ","))
 				default:
 					evs := []string{"setup"}
 					for k := r.Intn(7); k > 0; k-- {
